@@ -71,10 +71,14 @@ class DBusMessage :
 #            if not a.startswith('raw'):
 #                print '    %s = %s' % (a.ljust(15), str(getattr(self,a)))
 
-    def _marshal(self, newSerial=True, oobFDs=None):
+    def _marshal(self, newSerial=True, oobFDs=None, rawBody=None):
         """
         Encodes the message into binary format. The resulting binary message is
         stored in C{self.rawMessage}
+
+        @param rawBody: if supplied, these already encoded body bytes (in the
+            byte order given by C{self.endian}) are used as they are instead of
+            encoding C{self.body}. Used to forward a received message.
         """
         flags = 0
 
@@ -88,7 +92,9 @@ class DBusMessage :
         _headerAttrs = self._headerAttrs
 
         # marshal body before headers to know if the 'unix_fd' header is needed
-        if self.signature:
+        if rawBody is not None:
+            binBody = rawBody
+        elif self.signature:
             binBody = b''.join(
                 marshal.marshal(
                     self.signature,
@@ -384,6 +390,8 @@ def parseMessage(rawMessage, oobFDs):
         )
 
     m = object.__new__(_mtype[messageType])
+
+    m.endian = rawMessage[0]
 
     m.rawHeader = rawMessage[:nheader]
 
